@@ -253,6 +253,29 @@ pub fn extract(repo: &Path) -> String {
             }
         }
     }
+    // modules that are only compiled for tests or with the verification guard (`#[cfg(test)] mod x;`, `#[cfg(zeep_verif)] mod x;`)
+    // are not generator code: their files are left out of the inventories
+    let mut excluded: Vec<String> = vec![];
+    for (rel, ast) in &parsed {
+        let dir = Path::new(rel).parent().map(|p| p.to_string_lossy().to_string()).unwrap_or_default();
+        let stem = Path::new(rel).file_stem().map(|p| p.to_string_lossy().to_string()).unwrap_or_default();
+        let base = if stem == "mod" || stem == "lib" || stem == "main" { dir.clone() } else { format!("{dir}/{stem}") };
+        for it in &ast.items {
+            if let Item::Mod(m) = it {
+                let guarded = m.attrs.iter().any(|a| {
+                    a.path().is_ident("cfg") && {
+                        let t = a.meta.to_token_stream().to_string();
+                        t.contains("zeep_verif") || t.contains("test")
+                    }
+                });
+                if guarded && m.content.is_none() {
+                    excluded.push(format!("{base}/{}.rs", m.ident));
+                    excluded.push(format!("{base}/{}/", m.ident));
+                }
+            }
+        }
+    }
+    parsed.retain(|(rel, _)| !excluded.iter().any(|e| rel == e || (e.ends_with('/') && rel.starts_with(e.as_str()))));
     for (rel, ast) in &parsed {
         all.file = rel.clone();
         for it in &ast.items {
